@@ -115,6 +115,7 @@ type request struct {
 	body                []byte
 	probe               bool // a well-formed request whose answer must be right (C19)
 	nowDependent        bool
+	framing             int // 0: Content-Length + application/json; 1: chunked transfer encoding; 2: content type with a charset parameter; 3: no content type; 4: Expect: 100-continue
 }
 
 // bodyFields decodes the body as the DTO of the endpoint and renders the driver's body fields.
@@ -531,13 +532,27 @@ func send(client *http.Client, base string, rq request) result {
 	var body io.Reader
 	if rq.body != nil {
 		body = bytes.NewReader(rq.body)
+		if rq.framing == 1 {
+			// a reader of unknown length: net/http then frames the body with Transfer-Encoding: chunked (what streaming
+			// clients and re-framing proxies send); the service must read the same JSON out of it
+			body = struct{ io.Reader }{bytes.NewReader(rq.body)}
+		}
 	}
 	req, err := http.NewRequest(rq.method, u, body)
 	if err != nil {
 		return result{err: err.Error()}
 	}
 	if rq.body != nil {
-		req.Header.Set("Content-Type", "application/json")
+		switch rq.framing {
+		case 2:
+			req.Header.Set("Content-Type", "application/json; charset=utf-8")
+		case 3:
+		case 4:
+			req.Header.Set("Content-Type", "application/json")
+			req.Header.Set("Expect", "100-continue")
+		default:
+			req.Header.Set("Content-Type", "application/json")
+		}
 	}
 	now := time.Now().Unix()
 	t0 := time.Now()
@@ -843,6 +858,28 @@ func main() {
 		results = append(results, make([]result, len(reqs)-nb)...)
 		for i := nb; i < len(reqs); i++ {
 			results[i] = send(keep, base, reqs[i])
+		}
+	}
+	// framing variants: the same well-formed requests under the other ways HTTP lets a client frame a JSON body (chunked
+	// transfer encoding, a charset parameter, no content type, Expect: 100-continue); the answer is a function of the body
+	{
+		nb := len(reqs)
+		k := 0
+		for i := 0; i < nb && k < 48; i++ {
+			if !reqs[i].probe || reqs[i].body == nil || reqs[i].method != "POST" || usesClockPath(reqs[i]) || results[i].status != 200 {
+				continue
+			}
+			rq := reqs[i]
+			rq.framing = 1 + k%4
+			if k%2 == 0 {
+				rq.framing = 1
+			}
+			reqs = append(reqs, rq)
+			k++
+		}
+		results = append(results, make([]result, len(reqs)-nb)...)
+		for i := nb; i < len(reqs); i++ {
+			results[i] = send(fresh(), base, reqs[i])
 		}
 	}
 	// generate -> validate chains: the code one endpoint returns must validate at the matching endpoint
